@@ -824,9 +824,9 @@ def run(tier):
                "script with both add and has")
     t0 = time.time()
     items = corpus_items(ck)
-    nschemas = 60 if quick else 700
+    nschemas = 60 if quick else 4000
     per_schema = 30 if quick else 40
-    budget = 75 if quick else 900
+    budget = 75 if quick else 840
     for _ in range(nschemas):
         if time.time() - t0 > budget:
             ck.count("stopped_on_time_budget")
@@ -870,7 +870,8 @@ def replay(path):
     d = json.loads(open(path).read())
     print(json.dumps({k: d[k] for k in d if k not in ("proof_breaks",)}, indent=1)[:3000])
     if "schema" in d and "document" in d:
-        schema, doc = build_schema(d["schema"]), parse(d["document"])
+        schema = build_schema(d["schema"])
+        doc = parse(d["document"], no_location=(d.get("parse_options") == "no_location=True"))
         st, got = impl_conflicts(schema, doc)
         print("implementation:", st, got)
         try:
